@@ -45,7 +45,8 @@ func (s *Service) AggregateAttestation(ctx context.Context,
 	// We create a cancelable context with a timeout.  When a provider responds we cancel the context to cancel the other requests.
 	ctx, cancel := context.WithTimeout(ctx, s.timeout)
 
-	respCh := make(chan *phase0.Attestation, 1)
+	// The channel has room for every provider, so that those that answer after the first do not block for ever.
+	respCh := make(chan *phase0.Attestation, len(s.aggregateAttestationProviders))
 	for name, provider := range s.aggregateAttestationProviders {
 		go func(ctx context.Context,
 			name string,
